@@ -17,6 +17,7 @@ def run(ctx: Ctx) -> int:
                         env={"VERIF_C33_PREFIX": tag, "VERIF_C33_LEN": n}))
     jobs.append(Job(H, "h_with_statement", timeout=ctx.pick(60, 200)))
     jobs.append(Job(S, "h_sites", timeout=ctx.pick(120, 300)))
+    jobs.append(Job(S, "h_sequence", timeout=ctx.pick(200, 400), name="h_sequence[one program under alternating settings in one session]"))
     ctx.functions_encoded = [
         "guppylang_internals/experimental.py: enable_experimental_features.{__init__,__enter__,__exit__}, "
         "disable_experimental_features.{...}, check_lists_enabled, check_function_tensors_enabled, "
